@@ -22,7 +22,7 @@ type MyStep struct {
 	ResultCols []string // table column behind each result field
 	Tag        string
 	ParamDesc  []string
-	Reexec     bool // explicit prepared SELECT executed twice
+	Reexec     bool   // explicit prepared SELECT executed twice
 	Other      string // prepared-interleaved: the statement prepared and executed in between
 }
 
